@@ -276,6 +276,41 @@ fn vmess_limit_case(s: &mut Session, rng: &mut Rng, cipher: &str, thorough: bool
     s.mark_nontrivial();
 }
 
+/// the whole relay: real client (`transfer_udp`) and real server, several local applications and several
+/// targets at once — every datagram reaches the target it is addressed to, exactly once and whole; every answer
+/// returns to the application that asked, labelled with the answering target; nobody gets anything else
+fn e2e_cases(s: &mut Session, tier: &str, rng: &mut Rng) {
+    use crate::e2e_gen::*;
+    let thorough = tier == "thorough";
+    for mut base in protocol_ciphers(rng) {
+        base.udp = true;
+        // the README's transport table: shadowsocks udp-udp; vmess udp over tcp / tls / ws / wss / quic; trojan udp over tls / wss / quic
+        let all: Vec<&'static str> = match base.protocol {
+            "shadowsocks" => vec!["tcp"],
+            "vmess" => if tls_available() { vec!["tcp", "ws", "tls", "wss", "quic"] } else { vec!["tcp", "ws"] },
+            _ => if tls_available() { vec!["tls", "wss", "quic"] } else { vec![] },
+        };
+        // (each (protocol, transport) pair has its own arm in the client's `transfer_udp`: all of them, in both tiers)
+        let transports = all;
+        for t in transports {
+            let cfg = base.with(t);
+            s.begin_case(&format!("e2e-udp:{}", cfg.label()));
+            let Some(w) = cfg.start(s, false, 4) else {
+                s.oracle_fail(&format!("start:{}", cfg.label()), "a README-supported configuration does not start");
+                continue;
+            };
+            for (apps, targets, per) in if thorough { vec![(1, 1, 3), (2, 2, 2), (3, 4, 2)] } else { vec![(2, 2, 2)] } {
+                let r = s.run(&format!("e2e.udpm {} apps={} targets={} per={} seed={}", w, apps, targets, per, rng.below(1 << 40)));
+                if r != "up=ok down=ok stray=0" {
+                    s.oracle_fail(&format!("e2e-udp:{}", cfg.label()), &format!("{} applications x {} targets: datagrams lost, altered, misdelivered or mislabelled: `{}`", apps, targets, r));
+                }
+            }
+            s.run(&format!("e2e.stop {}", w));
+            s.mark_nontrivial();
+        }
+    }
+}
+
 pub fn generate(s: &mut Session, tier: &str, rng: &mut Rng) {
     let thorough = tier == "thorough";
     for _ in 0..if thorough { 6 } else { 1 } {
@@ -297,4 +332,5 @@ pub fn generate(s: &mut Session, tier: &str, rng: &mut Rng) {
             vmess_limit_case(s, rng, cipher, thorough);
         }
     }
+    e2e_cases(s, tier, rng);
 }
